@@ -102,7 +102,11 @@ class Base(core.Surface):
     def model(self, rn, x):
         if self.declined(x):
             return ("EXC", "EUndefined", "")
-        ann = go.annotate_props(x["props"])
+        try:
+            ann = go.annotate_props(x["props"])
+        except go.Refused as e:
+            # not an answer the implementation can agree with: reported with the refused document as the counterexample
+            return ("OK", {"a well-formed policy document is refused by the library's own classes (recognised as)": e.got, "document": e.node})
         if self.typed:
             out = rn.call(1306, [0, funcs(), x["type"], ann], sample=len(key(x)) < 600)
             type(self)._last = (key(x), set())
@@ -212,11 +216,16 @@ FILLER = ["potato", "us-east-1", 1, 0, True, None, "true", "2020-01-01", "10.0.0
 
 
 class Sids:
-    def __init__(self):
+    def __init__(self, rng=None):
         self.n = 0
+        self.rng = rng
 
     def next(self):
         self.n += 1
+        if self.rng is not None and self.rng.random() < 0.25:
+            # a Sid is free text for pycfmodel: hyphens, spaces, underscores, non-ASCII, no text at all (audit experiment 2: an
+            # "IAM rule" validator [A-Za-z0-9 ]* made documents with a Sid like allow-pull silently undiscovered)
+            return self.rng.choice(["allow-pull", "with space", "snake_case", "ünï-çødé", "", "a.b/c:d", "x" * 90, "42", "Sid#"]) + f"-{self.n}"
         return f"Sid{self.n}"
 
 
@@ -457,7 +466,7 @@ def cases(rng, tier, shard, nshards):
     n = {"quick": 900, "thorough": 14000}[tier]
     types = sorted(TYPED_BASE)
     for k in range(n):
-        sids = Sids()
+        sids = Sids(rng)
         if k % 3 == 0:
             t = types[(k // 3 + shard) % len(types)]
             yield TYPED, {"type": t, "props": typed_props(rng, sids, t)}
@@ -470,7 +479,7 @@ def cases(rng, tier, shard, nshards):
             yield IMPL, x
         if k % 150 == 2:
             # deliberate F16 stream: the code's reading still agrees with the faithful model; the property's reading does not
-            y = {"type": rng.choice(TYPE_NAMES), "props": generic_props(rng, Sids(), hidden=True)}
+            y = {"type": rng.choice(TYPE_NAMES), "props": generic_props(rng, Sids(rng), hidden=True)}
             yield IMPL, y
             yield SPEC, y
 
